@@ -16,3 +16,96 @@ fn info() -> Arc<PublishInfo> {
     })
 }
 
+
+// ---- C08: RejectedResources::keep_prefix against an interval reference ------------------
+
+use rpki::repository::resources::{IpBlock as RIpBlock, Prefix as RPrefix};
+
+fn v4_interval(bits: u32, len: u8) -> (u32, u32) {
+    let host: u32 = if len == 0 { u32::MAX } else if len >= 32 { 0 } else { u32::MAX >> len };
+    let lo = bits & !host;
+    (lo, lo | host)
+}
+
+fn any_v4(len_max: u8) -> (u32, u8) {
+    let bits: u32 = kani::any();
+    let len: u8 = kani::any();
+    kani::assume(len <= len_max);
+    let (lo, _) = v4_interval(bits, len);
+    (lo, len)
+}
+
+fn rejected_v4(blocks: &[(u32, u8)]) -> RejectedResources {
+    let mut v4 = IpBlocksBuilder::new();
+    let mut i = 0;
+    while i < blocks.len() {
+        let (bits, len) = blocks[i];
+        v4.push(RIpBlock::from(RPrefix::new(std::net::Ipv4Addr::from(bits), len)));
+        i += 1;
+    }
+    RejectedResources { v4: v4.finalize(), v6: IpBlocksBuilder::new().finalize() }
+}
+
+fn check_keep_prefix_v4<const N: usize>() {
+    let mut blocks = [(0u32, 0u8); N];
+    let mut i = 0;
+    while i < N { blocks[i] = any_v4(32); i += 1; }
+    let rej = rejected_v4(&blocks);
+    let (pb, pl) = any_v4(32);
+    let prefix = Prefix::new_v4(std::net::Ipv4Addr::from(pb), pl).unwrap();
+    let keep = rej.keep_prefix(prefix);
+    let (plo, phi) = v4_interval(pb, pl);
+    let mut overlaps = false;
+    i = 0;
+    while i < N {
+        let (lo, hi) = v4_interval(blocks[i].0, blocks[i].1);
+        if lo <= phi && plo <= hi { overlaps = true; }
+        i += 1;
+    }
+    assert!(keep == !overlaps, "keep_prefix disagrees with interval overlap");
+    kani::cover!(keep, "disjoint");
+    kani::cover!(!keep, "overlapping");
+    std::mem::forget(rej);
+}
+
+#[kani::proof]
+#[kani::unwind(4)]
+fn c08_keep_prefix_v4_one_block() { check_keep_prefix_v4::<1>() }
+
+#[kani::proof]
+#[kani::unwind(5)]
+fn c08_keep_prefix_v4_two_blocks() { check_keep_prefix_v4::<2>() }
+
+/// With nothing rejected every prefix is kept (both families).
+#[kani::proof]
+#[kani::unwind(3)]
+fn c08_keep_prefix_nothing_rejected() {
+    let rej = RejectedResources {
+        v4: IpBlocksBuilder::new().finalize(), v6: IpBlocksBuilder::new().finalize()
+    };
+    let (pb, pl) = any_v4(32);
+    assert!(rej.keep_prefix(Prefix::new_v4(std::net::Ipv4Addr::from(pb), pl).unwrap()));
+    let b6: u128 = kani::any();
+    let l6: u8 = kani::any();
+    kani::assume(l6 <= 128);
+    let m6: u128 = if l6 == 0 { 0 } else { u128::MAX << (128 - l6 as u32) };
+    assert!(rej.keep_prefix(Prefix::new_v6(std::net::Ipv6Addr::from(b6 & m6), l6).unwrap()));
+    kani::cover!(pl == 24, "some_prefix");
+    std::mem::forget(rej);
+}
+
+/// A rejected IPv4 block never filters an IPv6 prefix and vice versa.
+#[kani::proof]
+#[kani::unwind(4)]
+fn c08_keep_prefix_other_family() {
+    let blocks = [any_v4(32)];
+    let rej = rejected_v4(&blocks);
+    let b6: u128 = kani::any();
+    let l6: u8 = kani::any();
+    kani::assume(l6 <= 128);
+    let m6: u128 = if l6 == 0 { 0 } else { u128::MAX << (128 - l6 as u32) };
+    assert!(rej.keep_prefix(Prefix::new_v6(std::net::Ipv6Addr::from(b6 & m6), l6).unwrap()),
+            "rejected IPv4 resources filter an IPv6 prefix");
+    kani::cover!(l6 == 48, "some_v6_prefix");
+    std::mem::forget(rej);
+}
